@@ -136,6 +136,12 @@ where
         validation::validate(keys, self.lalrpop_results.clone())
     }
 
+    /// Verification hook: parse-stage results (tree + syntax diagnostics before validation)
+    #[cfg(feature = "verif-hooks")]
+    pub fn verif_parse_results(&self) -> &HashMap<ID, ParseFileResult<ID>> {
+        &self.lalrpop_results
+    }
+
     fn collect_item_keys(&self) -> HashMap<ast::ItemKey, ast::ResolvedItemKind> {
         self.lalrpop_results
             .values()
